@@ -382,3 +382,33 @@ def scale_direction_lint(repo, rep, rule):
                     rep.check(not (a == {"out"} and b == {"in"}), rule, f"ethosu/vela/{m.name}.py:{q}", f"`{str(norm(x))[:80]}` divides by the output-side scale",
                               "output scale over input scale: the reciprocal of the re-quantisation factor (input / output) every other site and the reference kernels use")
     return n
+
+
+def require_conjuncts(rep, rule, site, test, required, what, consequence):
+    """A guard that must hold *all* of a reviewed set of conditions before an optimisation is applied: every required
+    conjunct (compared on the canonical form) must still be a conjunct of `test`; additional conjuncts only make the guard
+    more conservative and are accepted."""
+    from ..exprnorm import conjuncts
+
+    have = [norm(x) for x in conjuncts(test)]
+    for r in required:
+        rep.check(any(h == r for h in have), rule, site, f"{what}: requires `{r}`", f"the guard is `{str(norm(test))[:160]}`: without this condition {consequence}")
+
+
+def duplicate_branch_lint(repo, rep, rule, modules):
+    """`if c: A else: A` - both branches the same statements - means the distinction the condition was written for
+    (first use vs accumulation, signed vs unsigned, ...) is no longer made. None exists on the confirmed tree."""
+    n = 0
+    for mname in modules:
+        m = repo.mod(mname)
+        for q, fn in m.functions.items():
+            for x in ast.walk(fn):
+                if isinstance(x, ast.If) and x.orelse:
+                    n += 1
+                    same = [str(norm(s)) for s in x.body] == [str(norm(s)) for s in x.orelse]
+                    if same:
+                        rep.bad(rule, f"ethosu/vela/{mname}.py:{q}", f"`if {str(norm(x.test))[:60]}` has two identical branches (`{str(norm(x.body[0]))[:60]}`)",
+                                "the case distinction is gone: e.g. a total that must be accumulated on later calls is overwritten instead")
+    if n:
+        rep.ok(rule, f"ethosu/vela/{modules[0]}.py", f"{n} if/else statements in {len(modules)} modules have distinct branches", "")
+    return n
